@@ -154,7 +154,7 @@ func c13(c *ctx) {
 		}
 	}
 	c.run.Extra["seconds_shipped_build"] = time.Since(t0).Seconds()
-	results, err := cp.Run(reqs, corpus.RunOpts{CPUSeconds: 900, WallSeconds: 2400})
+	results, err := cp.Run(reqs, corpus.RunOpts{CPUSeconds: 400, WallSeconds: 2400})
 	c.run.Extra["seconds_shipped_run"] = time.Since(t0).Seconds()
 	if cp.WatchdogHits > 0 {
 		c.run.Incon(fmt.Sprintf("%d child processes were stopped by the wall-clock watchdog", cp.WatchdogHits))
